@@ -84,7 +84,8 @@ VOCAB = {
     'in': ('list', [('P', None, True)]),
     'out': ('list', [('P', None, True), ('P', _l('caller-allocates'), True), ('P', _l('callee-allocates'), True)]),
     'inout': ('list', [('P', None, True)]),
-    'type': ('list', [('IPR', _l('utf8'), True), ('IPR', _l('GLib.List(utf8)'), False)]),
+    'type': ('list', [('IPR', _l('utf8'), True), ('IPR', _l('GLib.List(utf8)'), False),
+                      ('IPR', _l('GLib.HashTable(utf8,gint)'), False)]),
     'array': ('dict', [('PR', None, True), ('PR', _d(('fixed-size', '4')), True), ('PR', _d(('length', 'n')), True),
                        ('PR', _d(('zero-terminated', '1')), True),
                        ('PR', _d(('length', 'n'), ('zero-terminated', '1')), True),
@@ -98,7 +99,11 @@ VOCAB = {
                        ('P', _l('forever'), True)]),
     'value': ('list', [('I', _l('5'), True)]),
     'attributes': ('dict', [('IPR', _d(('my.key', 'val')), True), ('IPR', _d(('my.key', 'val'), ('my.key2', None)), True),
-                            ('IPR', _d(('my.key2', None)), True)]),
+                            ('IPR', _d(('my.key2', None)), True),
+                            # free-form values: '=' and other punctuation inside a value belong to the value
+                            ('IPR', _d(('doc.link', 'https://x/?id=42'), ('blob', 'QQ==')), False),
+                            ('IPR', _d(('my.key', 'a=b'), ('my.key2', None), ('k3', 'x:y,z+1-2.5/6?7')), False),
+                            ('IPR', _d(('k', '=')), False)]),
     # documented as deprecated ("Replaced by (nullable) and (optional)"): whether the parser
     # complains is not fixed by the documentation
     'allow-none': ('list', [('PR', None, False)]),
@@ -106,7 +111,12 @@ VOCAB = {
 assert len(VOCAB) == 37
 
 # unknown annotation names (in the property's quantifier); options are an opaque string
-UNKNOWN = [('frob', None), ('frob', ['raw', 'one']), ('frob', ['raw', 'one two']), ('x-files', ['raw', 'k=v'])]
+UNKNOWN = [('frob', None), ('frob', ['raw', 'one']), ('frob', ['raw', 'one two']), ('x-files', ['raw', 'k=v']),
+           ('x-files', ['raw', 'k=v=w a:b,c/d?e'])]
+
+# characters that str.splitlines() treats as line boundaries but that are NOT line endings of a
+# comment (lines end with \n, \r\n or \r): inside a line they are ordinary text
+ODD_SEPARATORS = ['\x0b', '\x0c', '\x1c', '\x1d', '\x1e', '\x85', '\u2028', '\u2029']
 
 # names the documentation lists as deprecated / never generated by the model
 DEPRECATED_ANN = ('attribute', 'in-out', 'null-ok')
